@@ -88,6 +88,25 @@ theorem discCount_append (h : List Ev) (e : Ev) :
   | cons x h ih => cases x <;> simp [discCount, ih] <;> omega
 
 
+theorem zeroCount_append (h : List Ev) (e : Ev) :
+    zeroCount (h ++ [e]) = zeroCount h + (match e with | .readZero _ => 1 | _ => 0) := by
+  induction h with
+  | nil => cases e <;> simp [zeroCount]
+  | cons x h ih => cases x <;> simp [zeroCount, ih] <;> omega
+
+/-- case analysis for `flushThen` -/
+theorem flushThen_of {P : S → Prop} (k : S → S) (s : S)
+    (h0 : s.recvQ = [] → P (k s))
+    (h1 : s.recvQ ≠ [] → (presentAny s).st ≠ .running → P (presentAny s))
+    (h2 : s.recvQ ≠ [] → (presentAny s).st = .running → P (k (presentAny s))) : P (flushThen s k) := by
+  unfold flushThen
+  split
+  · exact h0 ‹_›
+  · simp only
+    split
+    · exact h1 ‹_› ‹_›
+    · rename_i hn; exact h2 ‹_› (by simpa using hn)
+
 /-! ### the raw calls do not touch the receiving side -/
 
 structure RSame (t s : S) : Prop where
@@ -160,29 +179,54 @@ theorem streamInv_stable : Stable StreamInv := by
   · intro s hs; exact hs.congr (disable_rsame s) (.inl (disable_hist s))
   · intro s hs; exact hs.congr ⟨rfl, rfl, rfl, rfl, rfl, rfl, rfl⟩ (.inl rfl)
 
-theorem streamInv_present (s : S) (hs : StreamInv s) : StreamInv (present s) := by
+/-- the state handed to the callback script by a presentation -/
+theorem streamInv_presented (s : S) (k : Nat) (hs : StreamInv s) :
+    StreamInv { s with hist := s.hist ++ [.recv s.recvQ k], recvQ := s.recvQ.drop k,
+                       taken := s.taken ++ s.recvQ.take k, pres := s.got.length } := by
   obtain ⟨h1, h2, h3, h4⟩ := hs
   have hp : (leftAfter [] s.hist).isPrefixOf s.recvQ = true := List.isPrefixOf_iff_prefix.mpr h4
-  unfold present
+  refine ⟨?_, h2, ?_, ?_⟩
+  · simp only [List.append_assoc, List.take_append_drop]; exact h1
+  · simp only [chainOk_append, h3, hp, Bool.and_self]
+  · simp only [leftAfter_append]; exact List.prefix_refl _
+
+theorem streamInv_discarded (s : S) (hs : StreamInv s) :
+    StreamInv { s with hist := s.hist ++ [.discard s.recvQ], taken := s.taken ++ s.recvQ, recvQ := [],
+                       pres := s.got.length } := by
+  obtain ⟨h1, h2, h3, h4⟩ := hs
+  have hp : (leftAfter [] s.hist).isPrefixOf s.recvQ = true := List.isPrefixOf_iff_prefix.mpr h4
+  refine ⟨?_, h2, ?_, ?_⟩
+  · simp only [List.append_nil]; exact h1
+  · simp only [chainOk_append, h3, hp, Bool.and_self]
+  · simp only [leftAfter_append]; exact List.nil_prefix
+
+theorem streamInv_presentAny (s : S) (hs : StreamInv s) : StreamInv (presentAny s) := by
+  unfold presentAny
   split
-  · split
-    · rename_i k as _
-      apply streamInv_stable.runActs
-      refine ⟨?_, h2, ?_, ?_⟩
-      · simp only [List.append_assoc, List.take_append_drop]; exact h1
-      · simp only [chainOk_append, h3, hp, Bool.and_self]
-      · simp only [leftAfter_append]; exact List.prefix_refl _
-    · refine ⟨?_, h2, ?_, ?_⟩
-      · simp only [List.append_nil]; exact h1
-      · simp only [chainOk_append, h3, hp, Bool.and_self]
-      · simp only [leftAfter_append]; exact List.nil_prefix
-  · exact ⟨h1, h2, h3, h4⟩
+  · exact streamInv_stable.runActs _ _ (streamInv_presented s _ hs)
+  · exact streamInv_discarded s hs
+
+theorem streamInv_present (s : S) (hs : StreamInv s) : StreamInv (present s) := by
+  unfold present; split; exact streamInv_presentAny s hs; exact hs
 
 theorem streamInv_closed (s : S) (v : Bool) (hs : StreamInv s) : StreamInv (socketClosed s v) := by
   refine socketClosed_of streamInv_stable ?_ (fun s v u hs => hs.addEv _ rfl) s v hs
   intro s hs
   exact (hs.congr (disable_rsame s) (.inl (disable_hist s))).congr
     ⟨rfl, rfl, rfl, rfl, rfl, rfl, rfl⟩ (.inl rfl)
+
+theorem streamInv_closeTail (v : Bool) (s : S) (hs : StreamInv s) : StreamInv (closeTail v s) := by
+  unfold closeTail
+  split
+  · exact streamInv_closed s v hs
+  · split
+    · exact streamInv_stable.fire _ _ _ hs (hs.addEv _ rfl)
+    · exact streamInv_stable.fire _ _ _ hs (hs.addEv _ rfl)
+
+theorem streamInv_flushThen (v : Bool) (s : S) (hs : StreamInv s) :
+    StreamInv (flushThen s (closeTail v)) :=
+  flushThen_of _ s (fun _ => streamInv_closeTail v s hs) (fun _ _ => streamInv_presentAny s hs)
+    (fun _ _ => streamInv_closeTail v _ (streamInv_presentAny s hs))
 
 theorem streamInv_onRead (s : S) (hs : StreamInv s) : StreamInv (onRead s) := by
   have hsp := firstRead_spec s.pending s.eof s.rq
@@ -193,20 +237,10 @@ theorem streamInv_onRead (s : S) (hs : StreamInv s) : StreamInv (onRead s) := by
     exact hs.congr ⟨rfl, rfl, rfl, hsp, rfl, rfl, rfl⟩ (.inl rfl)
   · rename_i p q heq
     rw [heq] at hsp; simp only [ReadOk] at hsp
-    have h1 : StreamInv { s with pending := p, rq := q } :=
-      hs.congr ⟨rfl, rfl, rfl, hsp.1, rfl, rfl, rfl⟩ (.inl rfl)
-    simp only
-    split
-    · exact streamInv_closed _ _ h1
-    · exact streamInv_stable.fire _ _ _ h1 (h1.addEv _ rfl)
+    exact streamInv_flushThen _ _ (hs.congr ⟨rfl, rfl, rfl, hsp.1, rfl, rfl, rfl⟩ (.inl rfl))
   · rename_i p q heq
     rw [heq] at hsp; simp only [ReadOk] at hsp
-    have h1 : StreamInv { s with pending := p, rq := q } :=
-      hs.congr ⟨rfl, rfl, rfl, hsp, rfl, rfl, rfl⟩ (.inl rfl)
-    simp only
-    split
-    · exact streamInv_closed _ _ h1
-    · exact streamInv_stable.fire _ _ _ h1 (h1.addEv _ rfl)
+    exact streamInv_flushThen _ _ (hs.congr ⟨rfl, rfl, rfl, hsp, rfl, rfl, rfl⟩ (.inl rfl))
   · rename_i d p q heq
     rw [heq] at hsp; simp only [ReadOk] at hsp
     apply streamInv_present
@@ -232,251 +266,5 @@ theorem streamInv_frame : StepFrame StreamInv (fun _ => True) where
   feed s d hs := ⟨hs.recv, by simp only [← List.append_assoc, hs.kern], hs.chain, hs.left⟩
 
 theorem init_streamInv : StreamInv init := ⟨rfl, rfl, rfl, List.nil_prefix⟩
-
-
-/-! ### disconnected is reported at most once -/
-
-structure OnceInv (s : S) : Prop where
-  once : discCount s.hist ≤ (if s.expired then 1 else 0)
-  expd : s.expired = true → s.conn = true ∧ s.readOn = false
-  ron : s.readOn = true → s.st = .running
-
-theorem discCount_addEv (h : List Ev) (e : Ev) (he : ∀ v u, e ≠ .disconnected v u) :
-    discCount (h ++ [e]) = discCount h := by
-  rw [discCount_append]; cases e <;> simp_all
-
-theorem OnceInv.addEv {s : S} (hs : OnceInv s) (e : Ev) (he : ∀ v u, e ≠ .disconnected v u) :
-    OnceInv { s with hist := s.hist ++ [e] } :=
-  ⟨by simp only [discCount_addEv _ _ he]; exact hs.once, hs.expd, hs.ron⟩
-
-theorem onceInv_send (s : S) (d : List Byte) (hs : OnceInv s) : OnceInv (send s d).1 := by
-  obtain ⟨h1, h2, h3⟩ := hs
-  unfold send
-  split; exact ⟨h1, h2, h3⟩
-  simp only
-  split; exact ⟨h1, h2, h3⟩
-  split
-  · exact ⟨h1, h2, h3⟩
-  · exact ⟨h1, h2, h3⟩
-  · exact ⟨by simp only [discCount_addEv _ (Ev.sendDrop d) (fun _ _ h => by cases h)]; exact h1, h2, h3⟩
-
-theorem onceInv_disable (s : S) (hs : OnceInv s) :
-    OnceInv (disable s).1 ∧ (disable s).1.readOn = false ∧ (disable s).1.conn = s.conn ∧
-    (disable s).1.expired = s.expired ∧ (disable s).1.hist = s.hist := by
-  obtain ⟨h1, h2, h3⟩ := hs
-  have hro : s.st ≠ .running → s.readOn = false := by
-    intro hn; cases hr : s.readOn with
-    | false => rfl
-    | true => exact absurd (h3 hr) hn
-  unfold disable
-  split
-  · rename_i hi; exact ⟨⟨h1, h2, h3⟩, hro (by rw [hi]; simp), rfl, rfl, rfl⟩
-  · split
-    · rename_i hn; exact ⟨⟨h1, h2, h3⟩, hro hn, rfl, rfl, rfl⟩
-    · exact ⟨⟨h1, fun h => ⟨(h2 h).1, rfl⟩, fun h => by simp at h⟩, rfl, rfl, rfl, rfl⟩
-
-theorem onceInv_stable : Stable OnceInv where
-  send s d hs := by unfold apiSend; split; exact hs; exact onceInv_send s d hs
-  enable s hs := by
-    unfold apiEnable; split; exact hs
-    rename_i hc
-    obtain ⟨h1, h2, h3⟩ := hs
-    have hne : s.expired = false := by
-      cases he : s.expired with
-      | false => rfl
-      | true => exact absurd (h2 he).1 hc
-    unfold Tbox.C06.enable
-    split; exact ⟨h1, h2, h3⟩
-    split; exact ⟨h1, h2, h3⟩
-    exact ⟨h1, fun h => by simp [hne] at h, fun _ => rfl⟩
-  disable s hs := by unfold apiDisable; split; exact hs; exact (onceInv_disable s hs).1
-  disconnect s hs := by
-    unfold Tbox.C06.disconnect; split; exact hs
-    rename_i hc
-    have hc' : s.conn = true ∧ s.expired = false := by
-      simp only [not_or, Bool.not_eq_false, Bool.not_eq_true] at hc; exact hc
-    obtain ⟨hd, hr, hcn, _, hh⟩ := onceInv_disable s hs
-    refine ⟨?_, fun _ => ⟨by simp only [hcn]; exact hc'.1, hr⟩, fun h => by simp [hr] at h⟩
-    have := hs.once; simp [hc'.2] at this
-    simp [hh, this]
-
-theorem onceInv_rdFrame : RdFrame OnceInv where
-  fields s _ _ _ _ _ _ hs := ⟨hs.once, hs.expd, hs.ron⟩
-  ev s e he hs := hs.addEv e (by intro v u h; subst h; simp [Ev.isRead] at he)
-  closed s v hs hr hc := by
-    have hne : s.expired = false := by
-      cases he : s.expired with
-      | false => rfl
-      | true => rw [(hs.expd he).2] at hr; cases hr
-    obtain ⟨hd, hro, hcn, _, hh⟩ := onceInv_disable s hs
-    have h0 : discCount s.hist = 0 := by have := hs.once; simp [hne] at this; exact this
-    unfold socketClosed
-    have h1 : OnceInv { (disable s).1 with expired := true } :=
-      ⟨by simp [hh, h0], fun _ => ⟨by simp only [hcn]; exact hc, hro⟩, fun h => by simp [hro] at h⟩
-    refine onceInv_stable.fire _ _ _ h1 ⟨?_, h1.expd, h1.ron⟩
-    simp [discCount_append, hh, h0]
-
-theorem onceInv_wrFrame : WrFrame OnceInv where
-  fields s _ _ _ _ hs := ⟨hs.once, hs.expd, hs.ron⟩
-  ev s e he hs := hs.addEv e (by intro v u h; subst h; simp [Ev.isWrite] at he)
-
-theorem onceInv_frame : StepFrame OnceInv (fun _ => True) where
-  stable := onceInv_stable
-  onRead := onRead_of_frame onceInv_stable onceInv_rdFrame
-  onWrite := onWrite_of_frame onceInv_stable onceInv_wrFrame
-  initFd s n ev hs := by
-    obtain ⟨h1, h2, h3⟩ := hs
-    unfold initFd
-    split; exact ⟨h1, h2, h3⟩
-    split; exact ⟨h1, h2, h3⟩
-    split; exact ⟨h1, h2, h3⟩
-    rename_i he
-    have he' : s.st = .empty := by simpa using he
-    refine ⟨h1, h2, fun h => ?_⟩
-    have := h3 h; rw [he'] at this; cases this
-  connFlag s hs := ⟨hs.once, fun h => ⟨rfl, (hs.expd h).2⟩, hs.ron⟩
-  setRcb s _ _ _ hs := ⟨hs.once, hs.expd, hs.ron⟩
-  cbs s _ _ _ _ _ hs := ⟨hs.once, hs.expd, hs.ron⟩
-  world s _ _ _ _ hs := ⟨hs.once, hs.expd, hs.ron⟩
-  feed s d hs := ⟨hs.once, hs.expd, hs.ron⟩
-
-theorem init_onceInv : OnceInv init :=
-  ⟨by simp [init, discCount], (fun h => by cases h), (fun h => by cases h)⟩
-
-
-/-! ### close is reported after the data (threshold ≤ 1) -/
-
-structure CloseInv (s : S) : Prop where
-  stream : StreamInv s
-  thr : s.thr ≤ 1
-  pres : s.pres = s.got.length
-  close : closeOk s.hist
-
-theorem closeOk_append (h : List Ev) (e : Ev) (hh : closeOk h)
-    (h1 : ∀ u, e = .readZero u → u = 0) (h2 : ∀ u, e = .disconnected false u → u = 0) :
-    closeOk (h ++ [e]) := by
-  constructor
-  · intro u hu
-    rcases List.mem_append.mp hu with hu | hu
-    · exact hh.1 u hu
-    · exact h1 u (List.mem_singleton.mp hu).symm
-  · intro u hu
-    rcases List.mem_append.mp hu with hu | hu
-    · exact hh.2 u hu
-    · exact h2 u (List.mem_singleton.mp hu).symm
-
-theorem CloseInv.congr {s t : S} (hs : CloseInv s) (h : RSame t s) (hh : t.hist = s.hist) : CloseInv t :=
-  ⟨hs.stream.congr h (.inl hh), by rw [h.thr]; exact hs.thr, by rw [h.pres, h.got]; exact hs.pres,
-   by rw [hh]; exact hs.close⟩
-
-theorem CloseInv.addEv {s : S} (hs : CloseInv s) (e : Ev) (he : Ev.isPres e = false)
-    (h1 : ∀ u, e = .readZero u → u = 0) (h2 : ∀ u, e = .disconnected false u → u = 0) :
-    CloseInv { s with hist := s.hist ++ [e] } :=
-  ⟨hs.stream.addEv e he, hs.thr, hs.pres, closeOk_append _ _ hs.close h1 h2⟩
-
-theorem closeInv_stable : Stable CloseInv := by
-  refine Stable.ofRaw ?_ ?_ ?_ ?_
-  · intro s d hs
-    have hr := send_rsame s d
-    refine ⟨streamInv_stable_send s d hs.stream, by rw [hr.thr]; exact hs.thr,
-      by rw [hr.pres, hr.got]; exact hs.pres, ?_⟩
-    rcases send_hist s d with h | h <;> rw [h]
-    · exact hs.close
-    · exact closeOk_append _ _ hs.close (fun _ h => by cases h) (fun _ h => by cases h)
-  · intro s hs; exact hs.congr (enable_rsame s) (enable_hist s)
-  · intro s hs; exact hs.congr (disable_rsame s) (disable_hist s)
-  · intro s hs; exact hs.congr ⟨rfl, rfl, rfl, rfl, rfl, rfl, rfl⟩ rfl
-
-theorem closeInv_closed (s : S) (v : Bool) (hs : CloseInv s) (hu : v = false → unpresented s = 0) :
-    CloseInv (socketClosed s v) := by
-  unfold socketClosed
-  have h1 : CloseInv { (disable s).1 with expired := true } :=
-    (hs.congr (disable_rsame s) (disable_hist s)).congr ⟨rfl, rfl, rfl, rfl, rfl, rfl, rfl⟩ rfl
-  refine closeInv_stable.fire _ _ _ h1 (h1.addEv _ rfl (fun _ h => by cases h) ?_)
-  intro u h
-  cases h
-  exact hu rfl
-
-theorem closeInv_present (s : S) (h1 : StreamInv s) (h2 : s.thr ≤ 1) (h3 : s.recvQ ≠ [])
-    (h4 : closeOk s.hist) : CloseInv (present s) := by
-  have hlen : s.thr ≤ s.recvQ.length := by
-    cases hq : s.recvQ with
-    | nil => exact absurd hq h3
-    | cons a l => simp; omega
-  obtain ⟨a1, a2, a3, a4⟩ := h1
-  have hpre : (leftAfter [] s.hist).isPrefixOf s.recvQ = true := List.isPrefixOf_iff_prefix.mpr a4
-  unfold present
-  rw [if_pos hlen]
-  split
-  · rename_i k as heq
-    apply closeInv_stable.runActs
-    refine ⟨⟨?_, a2, ?_, ?_⟩, h2, rfl, closeOk_append _ _ h4 (fun _ h => by cases h) (fun _ h => by cases h)⟩
-    · simp only [List.append_assoc, List.take_append_drop]; exact a1
-    · simp only [chainOk_append, a3, hpre, Bool.and_self]
-    · simp only [leftAfter_append]; exact List.prefix_refl _
-  · refine ⟨⟨?_, a2, ?_, ?_⟩, h2, rfl, closeOk_append _ _ h4 (fun _ h => by cases h) (fun _ h => by cases h)⟩
-    · simp only [List.append_nil]; exact a1
-    · simp only [chainOk_append, a3, hpre, Bool.and_self]
-    · simp only [leftAfter_append]; exact List.nil_prefix
-
-theorem closeInv_onRead (s : S) (hs : CloseInv s) : CloseInv (onRead s) := by
-  have hsp := firstRead_spec s.pending s.eof s.rq
-  unfold onRead
-  split
-  · rename_i p q heq
-    rw [heq] at hsp; simp only [ReadOk] at hsp
-    exact hs.congr ⟨rfl, rfl, rfl, hsp, rfl, rfl, rfl⟩ rfl
-  · rename_i p q heq
-    rw [heq] at hsp; simp only [ReadOk] at hsp
-    have h1 : CloseInv { s with pending := p, rq := q } :=
-      hs.congr ⟨rfl, rfl, rfl, hsp.1, rfl, rfl, rfl⟩ rfl
-    have hu : unpresented { s with pending := p, rq := q } = 0 := by
-      have hk := hs.stream.kern
-      rw [hsp.2.1, List.append_nil] at hk
-      simp only [unpresented, ← hk, hs.pres]; omega
-    simp only
-    split
-    · exact closeInv_closed _ _ h1 (fun _ => hu)
-    · refine closeInv_stable.fire _ _ _ h1 (h1.addEv _ rfl ?_ (fun _ h => by cases h))
-      intro u h; cases h; exact hu
-  · rename_i p q heq
-    rw [heq] at hsp; simp only [ReadOk] at hsp
-    have h1 : CloseInv { s with pending := p, rq := q } :=
-      hs.congr ⟨rfl, rfl, rfl, hsp, rfl, rfl, rfl⟩ rfl
-    simp only
-    split
-    · exact closeInv_closed _ _ h1 (fun h => by cases h)
-    · exact closeInv_stable.fire _ _ _ h1 (h1.addEv _ rfl (fun _ h => by cases h) (fun _ h => by cases h))
-  · rename_i d p q heq
-    rw [heq] at hsp; simp only [ReadOk] at hsp
-    obtain ⟨⟨h1, h2, h3, h4⟩, ht, _, hc⟩ := hs
-    apply closeInv_present
-    · refine ⟨?_, ?_, h3, ?_⟩
-      · simp only [← List.append_assoc, h1]
-      · simp only [List.append_assoc, hsp.1]; exact h2
-      · exact List.IsPrefix.trans h4 (List.prefix_append _ _)
-    · exact ht
-    · intro h; exact hsp.2 (List.append_eq_nil_iff.mp h).2
-    · exact hc
-
-theorem closeInv_wrFrame : WrFrame CloseInv where
-  fields s _ _ _ _ hs := hs.congr ⟨rfl, rfl, rfl, rfl, rfl, rfl, rfl⟩ rfl
-  ev s e he hs := hs.addEv e (by cases e <;> simp_all [Ev.isWrite, Ev.isPres])
-    (fun u h => by subst h; simp [Ev.isWrite] at he) (fun u h => by subst h; simp [Ev.isWrite] at he)
-
-theorem closeInv_frame : StepFrame CloseInv (fun op => op.thrSmall = true) where
-  stable := closeInv_stable
-  onRead s hs _ := closeInv_onRead s hs
-  onWrite := onWrite_of_frame closeInv_stable closeInv_wrFrame
-  initFd s n ev hs := hs.congr (initFd_rsame s n ev) (initFd_hist s n ev)
-  connFlag s hs := hs.congr ⟨rfl, rfl, rfl, rfl, rfl, rfl, rfl⟩ rfl
-  setRcb s thr _ hok hs :=
-    ⟨streamInv_frame.setRcb s thr _ trivial hs.stream, by simpa [Op.thrSmall] using hok, hs.pres, hs.close⟩
-  cbs s a b c d e hs := ⟨streamInv_frame.cbs s a b c d e hs.stream, hs.thr, hs.pres, hs.close⟩
-  world s a b c d hs := ⟨streamInv_frame.world s a b c d hs.stream, hs.thr, hs.pres, hs.close⟩
-  feed s d hs := ⟨streamInv_frame.feed s d hs.stream, hs.thr, hs.pres, hs.close⟩
-
-theorem init_closeInv : CloseInv init :=
-  ⟨init_streamInv, by simp [init], rfl, ⟨(fun _ h => by cases h), (fun _ h => by cases h)⟩⟩
 
 end Tbox.C06
